@@ -346,6 +346,9 @@ func (c *c09) attempt(cs c09Case, setup bool) error {
 			}
 		}
 		c.r.SetAdd("abort_points", cs.Kind+":"+outcome)
+		if !setup && (cs.Cut != nil || cs.Variant != "") && len(pre.State.Roots) >= 2 {
+			c.r.Sample(map[string]any{"part": c.part, "case": cs, "outcome": outcome, "renter_error": errText(out.err), "state_unchanged": post.equal(pre)})
+		}
 		if !setup {
 			c.r.Distinct(fmt.Sprintf("%s:%s:n%d:%s:%s", cs.Kind, cs.Via, len(pre.State.Roots), outcome, caseShape(cs)))
 		}
